@@ -41,7 +41,7 @@ PRODUCTIONS = [
         ('u8', lambda P: bor(bor(bor(P_('consumer'), scale(P_('edge_triggered'), 2)), scale(P_('active_low'), 4)), scale(P_('shared'), 8))), ('u8', lambda P: C(1)), ('u32', lambda P: P_('number'))]),
     ('aml::Register', 'new', None, [('op', 0x82), ('u16', lambda P: C(12)), ('u8', lambda P: ('discr', P_('reg.address_space_id'))), ('u8', lambda P: P_('reg.register_bit_width')),
         ('u8', lambda P: P_('reg.register_bit_offset')), ('u8', lambda P: ('discr', P_('reg.access_size'))), ('u64', lambda P: P_('reg.address'))]),
-    ('aml::ResourceTemplate', 'new', None, [('op', 0x11), ('pkglen',), ('integer', lambda P: add(('call', 'replen', ('rep', ('len', P_('children')), 'children[i]', (('opaque', P_('children[i]')),))), C(2))),
+    ('aml::ResourceTemplate', 'new', None, [('op', 0x11), ('pkglen',), ('integer', lambda P: add(('Ssum', ('len', P_('children')), 'children[i]', ('call', 'elen', P_('children[i]'))), C(2))),
         ('terms', 'children'), ('op', 0x79), ('op', 0x00)]),
 ]
 for tag, w, t in ((0x88, 2, 'u16'), (0x87, 4, 'u32'), (0x8a, 8, 'u64')):
